@@ -59,9 +59,9 @@ def run(ck, prog):
         "literal-set and effect facts read from the syntax trees.")
     for step in (_effects, _setter, _getter, _sty_sets, _substitution, _distribution):
         ck.attempt(step, ck, prog)
-    check_api(ck, prog, [("get_phosphosites", "get_phosphosites", None), ("get_phosphosequence", "get_phosphosequence", None),
+    ck.attempt(check_api, ck, prog, [("get_phosphosites", "get_phosphosites", None), ("get_phosphosequence", "get_phosphosequence", None),
                          ("get_all_phosphorylatable_sites", "get_STY_residues", None)])
-    _void_api(ck, prog)
+    ck.attempt(_void_api, ck, prog)
 
 
 def _setter(ck, prog):
